@@ -300,6 +300,7 @@ func FlushAll() {
 		r.mu.Unlock()
 		data, _ := json.Marshal(p)
 		name := strings.Replace(base, "%P", r.Prop, -1)
+		name = strings.Replace(name, "%I", strconv.Itoa(os.Getpid()), -1)
 		_ = os.MkdirAll(filepath.Dir(name), 0755)
 		_ = ioutil.WriteFile(name, data, 0644)
 	}
